@@ -2,6 +2,7 @@ package ntfnsim
 
 import (
 	"fmt"
+	"os"
 
 	"github.com/btcsuite/btcd/chainhash/v2"
 	"github.com/lightningnetwork/lnd/chainntnfs"
@@ -11,6 +12,9 @@ import (
 
 // Arms of the swarm.
 var armNames = []string{"sync-rescan", "late-rescan", "restart", "faulty"}
+
+// (the arms "backend-glue" and "backend-glue-faulty" are selected by the LAST
+// configuration draws, so that tapes recorded before they existed replay)
 
 // DrawKnobs draws the per-run configuration (only configuration draws).
 func DrawKnobs(r *simcore.Run, thorough bool) (Knobs, universeCfg, uint32) {
@@ -70,6 +74,39 @@ func DrawKnobs(r *simcore.Run, thorough bool) (Knobs, universeCfg, uint32) {
 	}
 	uc.child = t.CfgDraw(3) == 2
 	base := uint32(100 + t.CfgDraw(50))
+
+	// New draws go last (an exhausted replay tape yields 0: not a glue run).
+	glue := t.CfgDraw(4) == 3
+	switch os.Getenv("VERIF_NTFN_GLUE") { // focused runs while developing; unset in ./check
+	case "always":
+		glue = true
+	case "never":
+		glue = false
+	}
+	if glue {
+		k.Glue = true
+		k.Arm = "backend-glue"
+		// rescans are answered inside the registration step; no restarts, no
+		// database faults, prompt clients, ConnectTip+NotifyHeight not split:
+		// those have their own arms
+		k.SyncRescan, k.Restarts, k.Faults = true, false, false
+		k.RestartW, k.FaultW, k.SplitDen, k.LazyDen, k.StaleDeliver = 0, 0, 0, 0, false
+		k.GlueFaulty = t.CfgDraw(3) != 0
+		k.GlueAsync = t.CfgDraw(2) == 1
+		k.NtfnW = []int{4, 10}[t.CfgDraw(2)]
+		k.GlueAtomic = k.GlueFaulty || k.GlueAsync
+		if k.GlueAtomic {
+			// a reorg step is several chain events
+			k.MaxSteps = k.MaxSteps * 3 / 5
+		}
+		if k.GlueFaulty {
+			k.Arm = "backend-glue-faulty"
+			k.GlueRPCDen = []int{6, 10, 16}[t.CfgDraw(3)]
+			k.GlueMaxRPC = 1 + t.CfgDraw(3)
+			k.GlueDropDen = []int{5, 8, 12}[t.CfgDraw(3)]
+			k.GlueMaxDrop = t.CfgDraw(4)
+		}
+	}
 	return k, uc, base
 }
 
@@ -80,6 +117,9 @@ func RunOne(r *simcore.Run, thorough bool) {
 	u := buildUniverse(uc)
 	s := NewSim(r, k, u, base)
 	defer s.Close()
+	if k.Glue {
+		s.glueInit()
+	}
 	r.Logf("config: arm=%s limit=%d base=%d knobs=%+v", k.Arm, k.Limit, base, k)
 	for _, o := range u.ops {
 		r.Logf("  outpoint O%d %s kind=%v parent=%d", o.idx, shortOp(o.op), o.kind, o.parent)
@@ -113,9 +153,23 @@ func (s *Sim) enabled() []op {
 		ev = append(ev, op{"notify", 12})
 	} else {
 		ev = append(ev, op{"connect", k.ConnectW})
-		if s.tip() > s.floor && s.depth+1 < int(k.Limit) {
+		depth := s.depth
+		if s.g != nil {
+			depth = s.g.depth // of the simulator's chain, not of the TxNotifier
+			if len(s.g.queue) > 0 {
+				ev = append(ev, op{"ntfn", k.NtfnW})
+			}
+			if len(s.g.allList) > 0 && s.caughtUp() {
+				ev = append(ev, op{"epochbacklog", 1})
+			}
+		}
+		if k.GlueAtomic {
+			if s.tip() > s.floor {
+				ev = append(ev, op{"reorg", k.DisconnectW + k.StickyW/3})
+			}
+		} else if s.tip() > s.floor && depth+1 < int(k.Limit) {
 			w := k.DisconnectW
-			if s.depth > 0 {
+			if depth > 0 {
 				w += k.StickyW
 			}
 			ev = append(ev, op{"disconnect", w})
@@ -183,7 +237,16 @@ func (s *Sim) Loop() {
 		s.steps++
 		s.seq++
 		r.Kind(e.kind)
+		if s.g != nil {
+			s.glueBeforeStep()
+		}
 		switch e.kind {
+		case "ntfn":
+			s.glueDeliverOne()
+		case "reorg":
+			s.opReorg()
+		case "epochbacklog":
+			s.opEpochBacklog()
 		case "connect":
 			s.opConnect()
 		case "notify":
@@ -217,13 +280,17 @@ func (s *Sim) Loop() {
 		if s.crashed() {
 			continue
 		}
+		if s.g != nil {
+			s.glueAfterStep()
+			continue
+		}
 		if s.half == nil {
 			s.settle()
 		}
 	}
 	s.WindDown()
 	r.Nontrivial = s.notices > 0 && s.retold > 0
-	if s.K.Faults {
+	if s.K.Faults || s.K.GlueFaulty {
 		r.Nontrivial = r.Nontrivial && s.faultHit
 	}
 }
@@ -306,10 +373,10 @@ func (s *Sim) pickBlockTxs(h uint32) []int {
 	return sel
 }
 
-func (s *Sim) opConnect() {
+// chainConnect extends the simulator's own chain by one block (model only).
+func (s *Sim) chainConnect(txs []int) *blk {
 	r := s.R
 	h := s.tip() + 1
-	txs := s.pickBlockTxs(h)
 	s.serial++
 	b := s.U.makeBlock(s.tipHash(), h, s.serial, txs)
 	b.seq = s.seq
@@ -323,7 +390,6 @@ func (s *Sim) opConnect() {
 	if h >= s.K.Limit && h-s.K.Limit+1 > s.floor {
 		s.floor = h - s.K.Limit + 1
 	}
-	s.depth = 0
 	// Assumption: a rescan does not outlive the maturity of its request
 	// (buried past the safety limit, when the notifier forgets it).
 	for _, q := range append([]*rescan(nil), s.rescans...) {
@@ -339,6 +405,19 @@ func (s *Sim) opConnect() {
 			}
 		}
 	}
+	return b
+}
+
+func (s *Sim) opConnect() {
+	r := s.R
+	h := s.tip() + 1
+	txs := s.pickBlockTxs(h)
+	if s.K.Glue {
+		s.glueChainEvent(true, txs, false)
+		return
+	}
+	b := s.chainConnect(txs)
+	s.depth = 0
 	r.Logf("ConnectTip %v hash=%s txs=%v", b, short(b.hash), txs)
 	s.cur = callCtx{kind: "ConnectTip", blk: b}
 	err := s.call("ConnectTip", func() error { return s.nt.ConnectTip(b.ub, h) })
@@ -372,16 +451,26 @@ func (s *Sim) opNotify() {
 	s.afterCall()
 }
 
-func (s *Sim) opDisconnect() {
+// chainDisconnect removes the tip of the simulator's own chain (model only).
+func (s *Sim) chainDisconnect() *blk {
 	b := s.chain[len(s.chain)-1]
 	s.chain = s.chain[:len(s.chain)-1]
 	b.onChain = false
-	s.depth++
 	for _, g := range s.groups {
 		if g.regEpoch != s.epoch && s.tip() < g.unwatchedLow {
 			g.unwatchedLow = s.tip()
 		}
 	}
+	return b
+}
+
+func (s *Sim) opDisconnect() {
+	if s.K.Glue {
+		s.glueChainEvent(false, nil, false)
+		return
+	}
+	b := s.chainDisconnect()
+	s.depth++
 	if s.depth >= 2 {
 		s.R.Count("probe_deep_reorg")
 	}
@@ -608,7 +697,7 @@ func (s *Sim) register(c *client) {
 		// asks the backend to scan (it starts at the better of the client's
 		// and the persisted hint) must cover the place where the request is
 		// confirmed/spent right now.
-		if len(hs) == 1 && rs.judged() && (start > hs[0].b.height || end < hs[0].b.height) {
+		if len(hs) == 1 && rs.judged() && !(s.g != nil && s.g.lag) && (start > hs[0].b.height || end < hs[0].b.height) {
 			s.fail(rs, "rescan-range-misses", "the notifier asks for a historical rescan of [%d..%d] for %s (client hint %d, persisted hint %d/%v) but the request is matched %s", start, end, rs.key, c.hint, cached, hasCached, describeHits(hs))
 		}
 		// Assumption: a rescan does not outlive the request it was
@@ -630,7 +719,13 @@ func (s *Sim) register(c *client) {
 	s.afterCall()
 	if disp && s.K.SyncRescan {
 		q := rs.outstanding
-		s.scan(q, 0)
+		mode := 0
+		if s.g != nil {
+			// the backend answers from ITS chain, which the TxNotifier may
+			// not have caught up with
+			mode = r.Draw(3)
+		}
+		s.scan(q, mode)
 		s.deliver(q)
 	}
 }
@@ -907,6 +1002,9 @@ func (s *Sim) WindDown() {
 	r := s.R
 	s.seq++
 	s.kv.Disarm()
+	if s.g != nil {
+		s.glueWindDown()
+	}
 	if s.half != nil {
 		s.opNotify()
 	}
